@@ -11,3 +11,6 @@ for i in 1..3 loop insert into t values (i); end loop;
 case x when 1 then 'a' else 'b' end case;
 grant select on t to role r; \d t
 select $tag$ body with ; and ' and $$ $tag$, $$another;$$ from dual;
+/*!40101 SET @OLD_CHARACTER_SET_CLIENT=@@CHARACTER_SET_CLIENT */;
+/*!50003 CREATE*/ /*!50017 DEFINER=`root`@`localhost`*/ /*!50003 TRIGGER t1 BEFORE INSERT ON t FOR EACH ROW SET NEW.a = 1 */;
+select 1; /*! select 2 */ select 3;
